@@ -645,6 +645,7 @@ class Program:
         self.fn_multi = defaultdict(list)
         self.adts = {}
         self.impls = []
+        self.consts = {}
         self.meta = {}
         for f in sorted(glob.glob(os.path.join(facts_dir, "*-lib-*.jsonl")) + glob.glob(os.path.join(facts_dir, "*-bin-*.jsonl"))):
             base = os.path.basename(f)
@@ -664,6 +665,8 @@ class Program:
                     elif k == "impl":
                         r["crate"] = crate
                         self.impls.append(r)
+                    elif k == "const":
+                        self.consts[r["name"]] = r["value"]
                     elif k == "meta":
                         self.meta[(r["crate"], r["ctype"])] = r
         self._callers = None
